@@ -493,7 +493,8 @@ def r2(ctx, rep):
     # (a) a depth guard anywhere on the recursive-descent path?
     # (the bound on nested *function bodies*, `function_depth`, is a different guard: it ends the resolution of a recursive function and says
     # nothing about how deeply an expression may be nested; R14 checks it)
-    guard_words = re.compile(r"^(?!.*function_depth)(?!.*MAX_FUNCTION_DEPTH).*(depth|recursion_limit|stacker|maybe_grow|MAX_NEST)", re.I)
+    # .. and so is `import_depth`, the bound on chains of `import` declarations (R15)
+    guard_words = re.compile(r"^(?!.*(function|import)_depth)(?!.*MAX_(FUNCTION|IMPORT)_DEPTH).*(depth|recursion_limit|stacker|maybe_grow|MAX_NEST)", re.I)
     guards_found = []
     for f in syn.fns:
         if f["crate"] not in ("prqlc", "prqlc_parser") or "body" not in f:
@@ -1140,6 +1141,38 @@ def r14(ctx, rep):
               f"{len(restores)} restore(s)): otherwise sibling calls add up and a long pipeline of user-function calls is refused", line=f["l"], **loc)
 
 
+def r15(ctx, rep):
+    """`resolve_ident` follows an `import` declaration to its target by calling itself. `import a = a` (or a longer cycle) would be followed
+    forever: the recursive call stands between an increment and a restore of a counter that is tested against a constant first."""
+    import guards
+    rep.rule("C12.R15", "following an import is bounded: the recursive resolve_ident call is preceded by a counter test against a constant (Err beyond it) and an increment, and followed by the restore", floor=2)
+    syn = ctx.syn
+    f = syn.fn("Resolver::resolve_ident", crate="prqlc")
+    loc = dict(file=f["file"], fn=f["path"])
+    par = guards.parents(f["body"])
+    rec = [n for n in walk(f["body"]) if n.get("k") == "mcall" and n["m"] == "resolve_ident" and show(n["r"]) == "self"]
+    rep.check(len(rec) >= 1, "import-follow:site", f"expected the recursive call that follows an import target, found {len(rec)}", line=f["l"], **loc)
+    for k_, c in enumerate(rec, 1):
+        # the block the call's statement stands in
+        cur = c
+        while id(cur) in par and par[id(cur)].get("k") != "block":
+            cur = par[id(cur)]
+        blk = par.get(id(cur))
+        stmts = blk.get("s", []) if blk else []
+        i = next((j for j, st in enumerate(stmts) if st is cur), None)
+        before, after = (stmts[:i], stmts[i + 1:]) if i is not None else ([], [])
+        incs = [st for st in before if st.get("k") == "bin" and st.get("op") == "+=" and show(st["lhs"]).startswith("self.")]
+        counter = show(incs[-1]["lhs"]) if incs else None
+        tests = [st for st in before if counter and st.get("k") == "if" and st["c"].get("k") == "bin" and st["c"]["op"] in (">=", ">") and show(st["c"]["lhs"]) == counter
+                 and (st["c"]["rhs"].get("k") == "lit" or (st["c"]["rhs"].get("k") == "path" and st["c"]["rhs"]["p"].isupper()))
+                 and any(x.get("k") == "return" and x.get("e") is not None and show(x["e"], maxdepth=3).startswith("Err(") for x in walk(st["t"]))]
+        restores = [st for st in after if counter and ((st.get("k") == "assign" and show(st["lhs"]) == counter) or (st.get("k") == "bin" and st.get("op") == "-=" and show(st["lhs"]) == counter))]
+        no_try = not any(x.get("k") == "try" for x in walk(cur))
+        rep.check(bool(counter) and len(tests) == 1 and len(restores) == 1 and no_try, f"import-follow:bounded:{k_}",
+                  f"resolve_ident follows an import by calling itself; the call must be bounded by a counter (`self.<n> >= CONST => Err`, `+= 1` before, restore after, no `?` on the call): "
+                  f"found counter {counter}, {len(tests)} test(s), {len(restores)} restore(s) - `import a = a` otherwise overflows the stack", line=c["l"], **loc)
+
+
 def run(ctx, rep):
-    for r in (r1, r2, r3, r4, r5, r6, r7, r8, r9, r10, r11, r12, r13, r14):
+    for r in (r1, r2, r3, r4, r5, r6, r7, r8, r9, r10, r11, r12, r13, r14, r15):
         rep.guard(r, ctx)
